@@ -21,11 +21,11 @@
 //! to findings that are fixed in /repo and stay active so that a regression is reported under its name
 //! (a `fixed` entry of known_findings.json suppresses nothing):
 //!   `sweep-beyond-full-turn`     OPEN.  |sweep| > 2π: the Bézier sequences stop after one full turn
-//!   `fast-atan2-endpoint-drift`  fixed a39176c6 / 8ce8d2e3.  end point off by at most
+//!   `fast-atan2-endpoint-drift`  fixed efc24b99 / 40e30eb0.  end point off by at most
 //!                                (max |fast_atan2 − atan2| ≈ 2.04e-4 rad) × larger radius
-//!   `tiny-radii-abs-epsilon`     fixed a403d79f.  rx·ry·|sin step| ≤ S::EPSILON: `Line::intersection`
+//!   `tiny-radii-abs-epsilon`     fixed 863c17b2.  rx·ry·|sin step| ≤ S::EPSILON: `Line::intersection`
 //!                                called the two tangents parallel, control point = start point
-//!   `ctrl-intersection-cancellation`  fixed a403d79f.  quadratic control point off by no more than the
+//!   `ctrl-intersection-cancellation`  fixed 863c17b2.  quadratic control point off by no more than the
 //!                                a-priori rounding bound of `Line::intersection` on absolute positions
 //!   `fast-atan2-sweep-wrap`      never observed: a sweep off by a whole turn near 0 / 2π
 
